@@ -145,6 +145,36 @@ def break_ref(g, form):
     return {"mode": "ambiguous", "name": name}
 
 
+def plant_select_from_repeat(g, form):
+    """choices taken from the answers of a repeat (select_one ${question in a repeat}) with a choice filter that mentions questions of
+    that repeat, questions outside it and siblings of the select.  Names are chosen so that one path is a textual prefix of another."""
+    u = str(g.integer(10, 99))
+    rep, nm, age, w = "kid" + u, "kid" + u + "_name", "kid" + u + "_age", "kid" + u + "_w"
+    q = lambda **c: {"k": "q", "c": c}  # noqa: E731
+    inner = [q(type="text", name=nm, label="N"), q(type="integer", name=age, label="A")]
+    in_group = g.p("_", 0.4)
+    if in_group:
+        inner.append({"k": "g", "c": {"name": "kg" + u, "label": "G"}, "ch": [q(type="integer", name=w, label="W")]})
+    items = {"k": "r", "c": {"name": rep, "label": "R"}, "ch": inner}
+    variant = g.pick(["top", "top", "sibling-repeat", "same-repeat"])
+    limit = rep + "_limit"          # /root/kid12_limit starts with the text of /root/kid12
+    flt = "${%s} < ${%s}" % (age, limit) if g.p("_", 0.7) else "${%s} < 99" % age
+    if in_group and g.p("_", 0.6):
+        flt += " and ${%s} > 1" % w
+    sel = q(type="select_one ${%s}" % nm, name="pick" + u, label="P", choice_filter=flt)
+    top = [q(type="integer", name=limit, label="L")]
+    if variant == "top":
+        form["nodes"] += [items] + top + [sel]
+    elif variant == "sibling-repeat":
+        vmin = "vmin" + u
+        sel["c"]["choice_filter"] = flt + " and ${%s} > ${%s}" % (age, vmin)
+        form["nodes"] += [items] + top + [{"k": "r", "c": {"name": "visit" + u, "label": "V"}, "ch": [q(type="integer", name=vmin, label="M"), sel]}]
+    else:
+        items["ch"].append(sel)
+        form["nodes"] += top + [items]
+    form["sfr"] = variant
+
+
 @st.composite
 def _cases(draw):
     prof = dict(gen.PROFILES["refs"], p_messages=0.6, p_hint=0.4, p_guidance=0.2, p_custom_bind=0.2, p_randomize=0.3,
@@ -164,6 +194,8 @@ def _cases(draw):
                 for k, v in a["c"].items():
                     if k.split("::")[0] in ("label", "hint"):
                         b["c"][k] = v
+    if g.p("_", 0.2):
+        plant_select_from_repeat(g, form)
     c = {"form": form}
     if g.p("_", 0.12):
         br = break_ref(g, form)
@@ -237,6 +269,15 @@ def evaluate(case) -> Outcome:
     if "${" in res.xform:
         i = res.xform.index("${")
         out.fail("C03.no-dollar-brace", "", f"'${{' survives in output: ...{res.xform[max(0, i - 60):i + 40]}...")
+    # a path into the last-saved instance needs that instance to be declared, whatever cell kind the reference came from
+    out.checked("C03.last-saved-declared")
+    uses = "instance('__last-saved')" in res.xform
+    declared = [e for e in v.model.iter(q(XF, "instance")) if e.get("id") == "__last-saved"]
+    if uses:
+        out.label("uses-last-saved")
+    if uses and (len(declared) != 1 or declared[0].get("src") != "jr://instance/last-saved"):
+        out.fail("C03.last-saved-declared", "undeclared" if not declared else "wrong-declaration",
+                 f"the output refers to instance('__last-saved') but the model declares {[xform.attrs(e) for e in declared]}")
     root = expect.build(form)
     audit(out, form, v, root)
     return out
@@ -293,7 +334,8 @@ def audit(out, form, v, root):
             need_cur = (predicate or refs.in_instance_predicate(source, i)) and not in_ir
             if n.innermost_repeat() is not None or t.innermost_repeat() is not None:
                 any_repeat = True
-            bad = refs.check_token(tok, inst, ctx, t.path, last_saved=ls, must_relative=must_rel, need_current=need_cur)
+            bad = refs.check_token(tok, inst, ctx, t.path, last_saved=ls, must_relative=must_rel, need_current=need_cur,
+                                   stay_within=refs.levels_to_shared_repeat(n, t))
             out.checked("C03.token")
             if bad:
                 feat = ""
@@ -303,8 +345,67 @@ def audit(out, form, v, root):
                     feat = ":indexed-repeat"
                 out.fail("C03.ref", f"{bad[0]}{feat}|{kind if kind in ('choice_filter', 'trigger-value', 'seed', 'repeat_count') else 'cell'}",
                          f"{n.path} [{kind}] {source!r}: {bad[1]}")
+            ir_arg = refs.indexed_repeat_arg(source, i) if in_ir else None
+            if ir_arg in (0, 1, 3, 5) and not ls and not tok.startswith("/"):
+                # the field and the repeat-group arguments of indexed-repeat() are absolute by design
+                out.fail("C03.ref", f"not-absolute:indexed-repeat-arg{ir_arg}|cell", f"{n.path} [{kind}] {source!r}: argument {ir_arg + 1} is {tok!r}, must be the absolute path {t.path}")
             if force_abs and not tok.startswith("/"):
                 out.fail("C03.ref", f"not-absolute|{kind}", f"{n.path} [{kind}] token {tok!r} must be absolute")
+
+    def check_repeat_itemset(n, source, ctrl_el):
+        """select_one ${x}: the items are the instances of the repeat (or group in it) that holds x; inside the predicate '.' is an item"""
+        nonlocal any_repeat
+        any_repeat = True
+        out.checked("C03.repeat-itemset")
+        out.label("kind:repeat-itemset:" + str(form.get("sfr")))
+        m = model.REF_RE.search(c_type := n.cells["type"])
+        x = names.get(m.group(2)) if m else None
+        its = list(ctrl_el.iter(q(XF, "itemset"))) if ctrl_el is not None else []
+        if not x or len(x) != 1 or len(its) != 1:
+            out.fail("C03.repeat-itemset", "no-itemset", f"{n.path}: {c_type!r} has {len(its)} itemsets")
+            return
+        x = x[0]
+        container = x.parent
+        ns = its[0].get("nodeset") or ""
+        base_path, _, pred = ns.partition("[")
+        pred = pred[:-1] if pred.endswith("]") else pred
+        ctx = ctx_of(n)
+        cont_el = ctx_of(container)
+        if base_path.startswith("/"):
+            ok = base_path == container.path
+        else:
+            hits = sorted({xform.node_path(h) for h in xform.resolve(inst, base_path, ctx)}) if ctx is not None else []
+            ok = hits == [container.path]
+        if not ok:
+            out.fail("C03.repeat-itemset", "nodeset", f"{n.path}: itemset nodeset {base_path!r} is not the repeat {container.path}")
+        vals = [e.get("ref") for it in its for e in xform.elems(it) if xform.local(e) in ("value", "label")]
+        if vals != [x.name, x.name] and sorted(vals) != [x.name, x.name]:
+            out.fail("C03.repeat-itemset", "value-label", f"{n.path}: value/label refs {vals}, expected {x.name}")
+        toks = refs.match_substituted(source, pred)
+        if toks is None:
+            out.fail("C03.cell-not-found", "repeat-itemset", f"{n.path}: filter {source!r} not found substituted in {pred!r}")
+            return
+        _, rr = refs.split_source(source)
+        for tok, (ls, name) in zip(toks, rr):
+            tgt = names.get(name)
+            if not tgt or len(tgt) != 1 or ls:
+                continue
+            t = tgt[0]
+            out.checked("C03.token")
+            if t.path.startswith(container.path + "/"):
+                # a question of the items' repeat: relative to the item, or absolute
+                if tok.startswith("/"):
+                    bad = None if tok == t.path else ("wrong-absolute", f"{tok!r} != {t.path}")
+                elif tok.startswith("./") and cont_el is not None:
+                    hits = sorted({xform.node_path(h) for h in xform.resolve(inst, tok, cont_el)})
+                    bad = None if hits == [t.path] else ("wrong-item-relative", f"{tok!r} from the item {container.path} reaches {hits}, expected {t.path}")
+                else:
+                    bad = ("not-item-relative", f"{tok!r}: a question of the repeat that supplies the choices is addressed from the item ('./...')")
+            else:
+                bad = refs.check_token(tok, inst, ctx, t.path, must_relative=refs.must_be_relative(n, t) or None, need_current=not tok.startswith("/"),
+                                       stay_within=refs.levels_to_shared_repeat(n, t))
+            if bad:
+                out.fail("C03.ref", f"{bad[0]}|repeat-itemset", f"{n.path} [select from {container.path}] {source!r}: {bad[1]}")
 
     def itext_values(text_id, form_attr):
         vals = []
@@ -358,6 +459,8 @@ def audit(out, form, v, root):
             elif base == "default":
                 vals = [e.get("value") for e in v.root.iter(q(XF, "setvalue")) if e.get("ref") == n.path and "odk-instance-first-load" in (e.get("event") or "")]
                 check(n, "default", source, vals)
+            elif base == "choice_filter" and "${" in (c.get("type") or ""):
+                check_repeat_itemset(n, source, ctrl_el)
             elif base == "choice_filter":
                 cands = []
                 if ctrl_el is not None:
